@@ -476,4 +476,144 @@ theorem advance_twin (cfg cfg' : Config) (hflt : cfg'.filter = cfg.filter) (hfsb
     rw [advanceAcc_nomove cfg a₁ b hA.nf₁.1 last hls hlT₁ hmv, advanceAcc_nomove cfg' a₂ b hA.nf₂.1 last hls₂ hlT₂ hmv₂]
     exact hA
 
+/-! ### one incoming block, two retention settings -/
+
+/-- a reason to drop the block in one forkable is a reason to drop it in the other -/
+theorem drop_transfer (cfg cfg' : Config) {s₁ s₂ : FState} (hT : Twin s₁ s₂) (U : Id → Option Blk) (hU : UOK U)
+    (hw₁ : WfEntries s₁.db) (hw₂ : WfEntries s₂.db)
+    (hin₁ : ∀ e ∈ s₁.db.entries, U e.blk.id = some e.blk) (hin₂ : ∀ e ∈ s₂.db.entries, U e.blk.id = some e.blk)
+    (b : Blk) (hbU : U b.id = some b)
+    (hwhy : b.id = b.parent ∨ (b.num < s₁.db.libRef.num ∧ s₁.lastSent.isSome = true) ∨
+      switchSegments cfg s₁ b (triggers cfg s₁ b) = none ∨ (s₁.db.addLink b).2 = true)
+    (hlinked : (s₂.db.addLink b).2 = false ∧ b.id ≠ b.parent ∧ ¬ (b.num < s₂.db.libRef.num ∧ s₂.lastSent.isSome = true)) :
+    False := by
+  obtain ⟨hex₂, hne₂, hnd₂⟩ := hlinked
+  have hnd₁ : ¬ (b.num < s₁.db.libRef.num ∧ s₁.lastSent.isSome = true) := by
+    rw [← hT.db.lib, ← hT.last]; exact hnd₂
+  rcases hwhy with h | h | h | h
+  · exact hne₂ h
+  · exact hnd₁ h
+  · exact switchSegments_ne_none cfg s₁ b _ h
+  · have := addLink_snd_of_find s₁.db s₂.db b (hT.find_incoming U hU hw₁ hw₂ hin₁ hin₂ b hbU hnd₁)
+    rw [hex₂, h] at this; cases this
+
+/-- **one incoming block**: two forkables that differ only in their retention setting and in what their buffers hold
+    below the LIB deliver the same events and stay twins -/
+theorem twin_step (cfg cfg' : Config) (hflt : cfg'.filter = cfg.filter) (hfsb : cfg'.fsb = cfg.fsb)
+    (hall : cfg'.allTrigger = cfg.allTrigger) (hnew : cfg.matches .new = true) (hundo : cfg.matches .undo = true)
+    (U : Id → Option Blk) (hU : UOK U) (F₁ F₂ : List Id) (s₁ s₂ : FState) (P : List Id) (b : Blk)
+    (hT : Twin s₁ s₂) (hI₁ : Inv s₁ P) (hI₂ : Inv s₂ P) (hJ₁ : Inv2 U F₁ s₁.db) (hJ₂ : Inv2 U F₂ s₂.db)
+    (hi₁ : InitNumOK s₁.db) (hi₂ : InitNumOK s₂.db) (hbU : U b.id = some b)
+    (hL₁ : LibDeclOK s₁.db b) (hL₂ : LibDeclOK s₂.db b)
+    (hincl : s₁.includeInit = false ∨ s₁.lastSent.isSome = true) :
+    (processBlock cfg' s₂ b none).2.1 = (processBlock cfg s₁ b none).2.1 ∧
+    Twin (processBlock cfg s₁ b none).1 (processBlock cfg' s₂ b none).1 := by
+  have hb := hU.wf b.id b hbU
+  have hB₁ := hb_of_inv2 U hU F₁ s₁.db hJ₁ b hbU
+  have hB₂ := hb_of_inv2 U hU F₂ s₂.db hJ₂ b hbU
+  have hcl₁ := sentClosed_of_inv2 U F₁ s₁.db hI₁.wf hI₁.heights hJ₁
+  have hcl₂ := sentClosed_of_inv2 U F₂ s₂.db hI₂.wf hI₂.heights hJ₂
+  have hm : ∀ st, cfg'.matches st = cfg.matches st := by intro st; unfold Config.matches; rw [hflt]
+  have hnew' : cfg'.matches .new = true := by rw [hm]; exact hnew
+  have hundo' : cfg'.matches .undo = true := by rw [hm]; exact hundo
+  have hni₁ : s₁.includeInit = false ∨ s₁.lastSent.isSome = true ∨ b.id ≠ s₁.db.libRef.id := by
+    rcases hincl with h | h
+    · exact Or.inl h
+    · exact Or.inr (Or.inl h)
+  have hni₂ : s₂.includeInit = false ∨ s₂.lastSent.isSome = true ∨ b.id ≠ s₂.db.libRef.id := by
+    rw [hT.incl, hT.last, hT.db.lib]; exact hni₁
+  have htrig : triggers cfg' s₂ b = triggers cfg s₁ b := by unfold triggers; rw [hall, hT.last]
+  unfold processBlock
+  rcases plan_cases cfg s₁ b hni₁ hI₁.libNe with ⟨⟨r₁, hr₁⟩, hwhy₁⟩ | ⟨hex₁, hne₁, hnd₁, u₁, rd₁, j₁, hsw₁, hpl₁⟩ <;>
+  rcases plan_cases cfg' s₂ b hni₂ hI₂.libNe with ⟨⟨r₂, hr₂⟩, hwhy₂⟩ | ⟨hex₂, hne₂, hnd₂, u₂, rd₂, j₂, hsw₂, hpl₂⟩
+  · rw [hr₁, hr₂]; exact ⟨rfl, hT⟩
+  · exact (drop_transfer cfg cfg' hT U hU hI₁.wf hI₂.wf hJ₁.inU hJ₂.inU b hbU hwhy₁ ⟨hex₂, hne₂, hnd₂⟩).elim
+  · exact (drop_transfer cfg' cfg hT.symm U hU hI₂.wf hI₁.wf hJ₂.inU hJ₁.inU b hbU hwhy₂ ⟨hex₁, hne₁, hnd₁⟩).elim
+  -- linked in both
+  obtain ⟨hf₁, _⟩ := fresh_of_addLink s₁.db b hI₁.wf hb hex₁
+  obtain ⟨hf₂, _⟩ := fresh_of_addLink s₂.db b hI₂.wf hb hex₂
+  have hal₁ := afterLink_eq s₁ b hI₁.wf hb hex₁
+  have hal₂ := afterLink_eq s₂ b hI₂.wf hb hex₂
+  have hlT₁ : (afterLink s₁ b).db.hasLIB = true := by rw [hal₁]; exact hasLIB_of_id _ hI₁.libNe
+  have hlT₂ : (afterLink s₂ b).db.hasLIB = true := by rw [hal₂]; exact hasLIB_of_id _ hI₂.libNe
+  rw [hpl₁, hpl₂, planLinked_hasLIB cfg _ b _ u₁ rd₁ j₁ hlT₁, planLinked_hasLIB cfg' _ b _ u₂ rd₂ j₂ hlT₂, hal₁, hal₂]
+  have hcc := hT.computeLongestChain_eq cfg cfg' hfsb P hI₁ hI₂ hi₁ hi₂ b hb hB₁ hB₂ hf₁ hf₂
+  rw [hcc]
+  cases hc : computeLongestChain cfg { s₁ with db := appendBlk s₁.db b } b with
+  | none => exact ⟨rfl, hT.append b none⟩
+  | some lc =>
+    cases lc with
+    | nil => exact ⟨rfl, hT.append b (some [])⟩
+    | cons c0 cs0 =>
+      rw [htrig]
+      cases htr : triggers cfg s₁ b with
+      | false => exact ⟨rfl, hT.append b (some (c0 :: cs0))⟩
+      | true =>
+        simp only [if_true]
+        rw [htr] at hsw₁
+        rw [htrig, htr] at hsw₂
+        -- the path of the new chain, and the chain of the block's parent
+        obtain ⟨hp, hn, _, htop, _⟩ := compute_chain_path cfg s₁ P b hI₁ hb hB₁ hf₁ (c0 :: cs0) hc
+        rcases List.eq_nil_or_concat (c0 :: cs0) with hnil | ⟨lc0, eb0, hlceb⟩
+        · cases hnil
+        rw [List.concat_eq_append] at hlceb
+        have hp' := hp
+        rw [hlceb] at hp' hn htop
+        simp only [List.map_append, List.map_cons, List.map_nil, topOf_append_singleton] at htop hp' hn
+        have hnd := isPath_nodup _ _ _ hp' hn
+        rw [isPath_append] at hp'
+        have hb0 : b.id ∉ lc0.map (·.blk.id) := by
+          rw [htop] at hnd
+          intro hmem
+          have := List.nodup_append.mp hnd
+          exact this.2.2 _ hmem _ (by simp) rfl
+        have hp0 : IsPath s₁.db s₁.db.libRef.id (lc0.map (·.blk.id)) := isPath_of_append_entry s₁.db b _ _ hp'.1 hb0
+        have hn0 : s₁.db.libRef.id ∉ lc0.map (·.blk.id) := fun hmem => hn (by simp [hmem])
+        have hbpar : b.parent = topOf s₁.db.libRef.id (lc0.map (·.blk.id)) := by
+          have := hp'.2.1
+          rw [htop] at this
+          unfold DB.link appendBlk at this
+          rw [find_append_self s₁.db b hf₁] at this
+          exact this
+        have hseq := hT.switchSegments_eq cfg cfg' hflt P hI₁ hI₂ b (lc0.map (·.blk.id)) hp0 hn0 hbpar
+        rw [hseq, hsw₁] at hsw₂
+        simp only [Option.some.injEq, Prod.mk.injEq] at hsw₂
+        obtain ⟨hu, hrd, hj⟩ := hsw₂
+        subst hu; subst hrd; subst hj
+        -- facts about both states after the deliveries
+        obtain ⟨hQ₁, ⟨eb, hls₁, hebref, heblib⟩, hsb₁, hok₁, _, _, _⟩ :=
+          switch_emit_facts cfg hnew hundo s₁ P b hI₁ hcl₁ hb hB₁ hL₁ hf₁ c0 cs0 hc u₁ rd₁ j₁ hsw₁
+        obtain ⟨hQ₂, _, hsb₂, hok₂, _, _, _⟩ :=
+          switch_emit_facts cfg' hnew' hundo' s₂ P b hI₂ hcl₂ hb hB₂ hL₂ hf₂ c0 cs0 (by rw [hcc]; exact hc) u₁ rd₁ j₁
+            (by rw [hseq]; exact hsw₁)
+        have hI₁' := inv_afterLink s₁ P b none hI₁ hb hB₁ hf₁ (by intro c cs h; cases h)
+        have hI₂' := inv_afterLink s₂ P b none hI₂ hb hB₂ hf₂ (by intro c cs h; cases h)
+        have hag : ∀ e ∈ c0 :: cs0, (appendBlk s₂.db b).find e.blk.id = (appendBlk s₁.db b).find e.blk.id := by
+          intro e he
+          exact (hT.db.append b).find_on_path hI₂'.wf hI₁'.heights _ hp e.blk.id (List.mem_map.mpr ⟨e, he, rfl⟩)
+        have hAT := emitSwitch_twin cfg cfg' hflt hnew _ _ (hT.append b (some (c0 :: cs0))) b (c0 :: cs0) u₁ rd₁ j₁ hag
+        generalize emitSwitch cfg { s₁ with db := appendBlk s₁.db b, cache := some (c0 :: cs0) } b (c0 :: cs0) u₁ rd₁ j₁ none = a₁
+          at hAT hQ₁ hls₁ hsb₁ hok₁ ⊢
+        generalize emitSwitch cfg' { s₂ with db := appendBlk s₂.db b, cache := some (c0 :: cs0) } b (c0 :: cs0) u₁ rd₁ j₁ none = a₂
+          at hAT hQ₂ hsb₂ hok₂ ⊢
+        have hlid : eb.blk.id = b.id := by have := congrArg Ref.id hebref; simpa [Blk.ref] using this
+        have hlnum : eb.blk.num = b.num := by have := congrArg Ref.num hebref; simpa [Blk.ref] using this
+        have hlastOf : ∀ (db a : DB), db.find b.id = none → SameBlks (appendBlk db b) a →
+            ∀ e, a.find eb.blk.id = some e → e.blk.num = eb.blk.num := by
+          intro db a hf hsb e he
+          have hfb := hsb.find_blk b.id
+          rw [hlid] at he
+          rw [he, show (appendBlk db b).find b.id = some ⟨b, false⟩ from find_append_self db b hf] at hfb
+          simp only [Option.map_some, Option.some.injEq] at hfb
+          rw [hfb, hlnum]
+        have hiOf : ∀ (db a : DB), InitNumOK db → SameBlks (appendBlk db b) a → InitNumOK a := by
+          intro db a hi hsb i n hin hid
+          rw [hsb.2.2] at hin
+          rw [hsb.1] at hid ⊢
+          exact hi i n hin hid
+        have hadv := advance_twin cfg cfg' hflt hfsb a₁ a₂ hAT b _ hQ₁ hQ₂ (hiOf s₁.db _ hi₁ hsb₁) (hiOf s₂.db _ hi₂ hsb₂)
+          eb.blk hls₁ (hlastOf s₁.db _ hf₁ hsb₁) (hlastOf s₂.db _ hf₂ hsb₂)
+          (by rw [hebref, heblib]; exact hok₁) (by rw [hebref, heblib]; exact hok₂)
+        exact ⟨hadv.evs, hadv.st⟩
+
 end BstreamVerif.Forkable
